@@ -3,6 +3,7 @@
 #include "h_l1.h"
 
 #include <stdio.h>
+#include <stdlib.h>
 #include <unistd.h>
 
 #include "lib/ebus/device_trans.h"
@@ -312,7 +313,8 @@ static void runL1(const plan::Plan& p, hz::RunResult* res, bool verbose) {
   };
 
   // logging: errors are formatted (code paths run) but go to /dev/null unless verbose
-  if (verbose) {
+  if (getenv("SIM_EBUSD_LOG")) {
+    // prints ebusd's own log; this adds intercepted calls and therefore changes the execution
     setFacilitiesLogLevel(1 << lf_COUNT, ll_debug);
   } else {
     int lvl = static_cast<int>(c.num("loglevel", 0));
